@@ -21,6 +21,7 @@ const (
 	oStruct okind = iota
 	oPtrList
 	oCompList
+	oFlatList // leaf: a list without pointers (void, bit, byte or 8-byte elements), e.g. Data or Text
 )
 
 type obj struct {
@@ -30,6 +31,7 @@ type obj struct {
 	n      int // list length
 	addr   int // word address of the first content word (composite: first element)
 	lie    int // composite: 1 = the list pointer declares 0 words, 2 = half of what the tag implies
+	esz    int // flat list: element size code of the list pointer (0 void, 1 bit, 2 byte, 5 eight bytes)
 	slots  []*obj
 }
 
@@ -39,8 +41,24 @@ func (o *obj) words() int {
 		return o.dw + o.np
 	case oPtrList:
 		return o.n
+	case oFlatList:
+		return int(o.flatBytes()+7) / 8
 	default:
 		return 1 + o.n*(o.dw+o.np)
+	}
+}
+
+// flatBytes is the number of content bytes of a flat list.
+func (o *obj) flatBytes() uint64 {
+	switch o.esz {
+	case 0:
+		return 0
+	case 1:
+		return uint64(o.n+7) / 8
+	case 2:
+		return uint64(o.n)
+	default:
+		return 8 * uint64(o.n)
 	}
 }
 
@@ -52,6 +70,11 @@ func (o *obj) trueSize() uint64 {
 		return uint64(8 * (o.dw + o.np))
 	case oPtrList:
 		return uint64(8 * o.n)
+	case oFlatList:
+		if o.esz == 0 {
+			return uint64(8 * o.n) // zero-sized elements count as one word each
+		}
+		return o.flatBytes()
 	default:
 		e := o.dw + o.np
 		if e == 0 {
@@ -67,6 +90,8 @@ func (o *obj) nslots() int {
 		return o.np
 	case oPtrList:
 		return o.n
+	case oFlatList:
+		return 0
 	default:
 		return o.n * o.np
 	}
@@ -96,6 +121,9 @@ func ptrWord(from int, t *obj) uint64 {
 	case oPtrList:
 		off := int32(t.addr - from - 1)
 		return uint64(uint32(off)<<2) | 1 | 6<<32 | uint64(t.n)<<35
+	case oFlatList:
+		off := int32(t.addr - from - 1)
+		return uint64(uint32(off)<<2) | 1 | uint64(t.esz)<<32 | uint64(t.n)<<35
 	default:
 		tag := t.addr - 1
 		off := int32(tag - from - 1)
@@ -125,15 +153,20 @@ func (r *run) buildGraph(chain bool) *graph {
 		o := &obj{id: i}
 		// okind 4, 5: a composite list whose pointer understates the word count (the tag decides
 		// what is handed out, so the tag decides what is charged)
-		k := s.Choice("okind", 6)
+		// okind 6, 7: a leaf list without pointers (Data, Text, primitive, bit or void list)
+		k := s.Choice("okind", 8)
 		lie := 0
-		if k >= 4 {
+		flat := k >= 6
+		if flat {
+			k = 3
+		} else if k >= 4 {
 			lie, k = k-3, 2
 			s.Probe("composite_list_pointer_understates_size")
 		}
 		if i == 0 || (chain && k == 3) {
 			k = 0 // the root must be a struct; a chain has no leaves
 			lie = 0
+			flat = false
 		}
 		switch k {
 		case 0:
@@ -144,8 +177,14 @@ func (r *run) buildGraph(chain bool) *graph {
 			o.kind, o.n, o.dw, o.np = oCompList, 1+s.Choice("cn", 3), s.Choice("cdw", 2), 1+s.Choice("cnp", 2)
 			o.lie = lie
 		case 3: // list of zero-sized structs: every element must still be charged one word
-			o.kind, o.n = oCompList, []int{1, 2, 5, 100, 1000}[s.Choice("zn", 5)]
-			s.Probe("zero_sized_element_list")
+			if flat {
+				o.kind, o.esz = oFlatList, []int{0, 1, 2, 5}[s.Choice("flat-esz", 4)]
+				o.n = []int{1, 8, 100, 1000, 5000}[s.Choice("flat-n", 5)]
+				s.Probe("pointer_free_list_object")
+			} else {
+				o.kind, o.n = oCompList, []int{1, 2, 5, 100, 1000}[s.Choice("zn", 5)]
+				s.Probe("zero_sized_element_list")
+			}
 		}
 		if chain {
 			switch o.kind {
